@@ -62,6 +62,9 @@ func wireFaultRun(c *mon.Ctx, ri int) {
 	var mu sync.Mutex
 	cur := -1                   // index of the running operation
 	attempts := map[int64]int{} // msg_id -> Send calls so far
+	firstPayload := map[int64][]byte{}
+	dupSeen := make(chan struct{}) // two different messages under one id: the script cannot go on (callers may hang)
+	var dupOnce sync.Once
 	kindOfInvoke := func(cf clientFrame) string {
 		if cf.TypeID != idHarnessRequest || len(cf.Payload) < 12 {
 			return ""
@@ -77,6 +80,12 @@ func wireFaultRun(c *mon.Ctx, ri int) {
 		defer mu.Unlock()
 		attempts[cf.MsgID]++
 		a := attempts[cf.MsgID]
+		if p, ok := firstPayload[cf.MsgID]; !ok {
+			firstPayload[cf.MsgID] = cf.Payload
+		} else if !bytes.Equal(p, cf.Payload) {
+			dupOnce.Do(func() { close(dupSeen) })
+			return false
+		}
 		switch cf.TypeID {
 		case idHarnessRequest:
 			switch kindOfInvoke(cf) {
@@ -146,6 +155,8 @@ func wireFaultRun(c *mon.Ctx, ri int) {
 				select {
 				case err = <-done:
 					finished = true
+				case <-dupSeen:
+					return // the verdict is taken from the captured frames
 				case <-time.After(3 * time.Millisecond): // pacing only
 				}
 				if !finished && time.Now().After(deadline) {
@@ -162,6 +173,11 @@ func wireFaultRun(c *mon.Ctx, ri int) {
 	if !ok {
 		return
 	}
+	select {
+	case <-dupSeen:
+		unexpected = 0 // the script was abandoned
+	default:
+	}
 	if unexpected > 0 {
 		c.Inconclusive(fmt.Sprintf("fault run %d: %d operations ended differently from the script (harness expectation)", ri, unexpected))
 	}
@@ -175,6 +191,7 @@ func wireFaultRun(c *mon.Ctx, ri int) {
 	first := map[int64]clientFrame{}
 	var gen []clientFrame // first Send per msg_id, in generation order
 	failedFirst, failedResend, resent := 0, 0, 0
+	dupIDs := false
 	for _, f := range all {
 		p, dup := first[f.MsgID]
 		if !dup {
@@ -191,7 +208,14 @@ func wireFaultRun(c *mon.Ctx, ri int) {
 		}
 		if p.SeqNo != f.SeqNo || !bytes.Equal(p.Payload, f.Payload) {
 			c.Violate("wire|duplicate-msg-id", map[string]any{"level": "wire, send-failure arm", "run": ri, "first": desc(p), "second": desc(f)})
+			dupIDs = true
 		}
+	}
+	if dupIDs {
+		// generation order is reconstructed from the first Send per msg_id: not
+		// defined when two messages share an id
+		c.Add("fault_runs_seq_rule_skipped", 1)
+		return
 	}
 	c.Add("fault_first_sends_failed", int64(failedFirst))
 	c.Add("fault_resends_failed", int64(failedResend))
